@@ -419,6 +419,8 @@ def oracle(case: dict, res: dict, rb: dict) -> list[str]:
     # (3) every declared name is present in the result
     if err and err["type"] == "RuntimeError" and "was not parsed" in err["msg"]:
         fails.append("declared schema missing from the result: " + err["msg"][:120])
+    elif err and err["type"] == "ValueError" and "" in case["schemas"] and "empty name" in err["msg"]:
+        pass  # an invalid document (a component schema keyed by "") is rejected up front with a clear error
     elif err and err["type"] not in ("RecursionError", "Budget", "WorkerDied", "MemoryError"):
         fails.append(f"loading raised {err['type']}: {err['msg'][:160]}")
     elif not err:
@@ -496,8 +498,7 @@ def c_case(case: dict, rb: dict) -> str:
     from framework import cbool, clist, cpair, cstr
     md = case["max_depth"] if case.get("max_depth") is not None else 150
     obs = clist(clist(str(v) for v in enc_event(e)) for e in rb["used"])
-    inp = (f"{{| i_md := {md}; i_tops := {clist(c_item(t) for t in rb['tops'])}; i_trunc := {cbool(rb['truncated'])}; "
-           f"i_alias := {clist(cpair(cstr(a), cstr(b)) for a, b in declared_aliases(case['schemas']))} |}}")
+    inp = f"{{| i_md := {md}; i_tops := {clist(c_item(t) for t in rb['tops'])}; i_trunc := {cbool(rb['truncated'])} |}}"
     return f"({inp}, ({cbool(rb['truncated'])}, {obs}))"
 
 
@@ -779,7 +780,7 @@ def main(chk, replay: dict | None = None) -> int:
                              [c_case(c["input"], c["_rb"]) for c in cases], "run", shard=shard)
     for c in cases:
         del c["_rb"]
-    chk.decide(cases, codes, {1: "F08a", 2: "F08b", 3: "F08c", 4: "F08d"},
+    chk.decide(cases, codes, {1: "F08a", 2: "F08b"},
                "Corr.C08.run: Coq trace of the rebuilt call trees = tracker snapshots recorded at every enter/exit")
     return chk.finish(TRUSTED,
                       rule="corpus + enumerated graphs over <=3 named schemas x 8 edge kinds (+ node shapes, declaration "
